@@ -486,6 +486,7 @@ RULES = [
     ("X-EXPRWALK", "recursive walks of an expression's value layer visit left, right and the further arguments [shared]", lambda ctx: __import__("extra2").value_walks_reach_arguments(ctx)),
     ("C02-R8", "comparisons of arithmetic results (Float values) against literals are numeric, signed zeroes included [shared with C02]", lambda ctx: __import__("c02").r8(ctx)),
     ("X-NUMMINUS", "a minus glued to a number is the arithmetic operator; only a year 1970..2999 starts a date literal (lexer evaluated) [shared]", lambda ctx: __import__("extra2").number_minus_is_arithmetic(ctx)),
+    ("C09-R2", "every output format shows the computed value's own text (escaping only; a negative number stays a number) [shared with C09]", lambda ctx: __import__("c09").r2(ctx)),
 ]
 
 EXPLANATION = (
